@@ -35,7 +35,7 @@ def run(tier, replay=None):
     # (V) real code
     drive = vlib.build_harness(cmd="c20")
     trace = c.work / "c20.ndjson"
-    n, scen = (2000, 20) if tier == "quick" else (6000, 120)
+    n, scen = (2000, 20) if tier == "quick" else (8000, 320)
     st = vlib.run_driver(drive, ["-out", trace, "-gen", genf, "-seed", c.seed, "-n", n, "-scen", scen])
     r, lines = c.validate_trace("Limiter_Trace", trace)
     events = vlib.read_ndjson(trace)
